@@ -71,7 +71,7 @@ CONFIG = dict(
          "drawn from small colliding domains (ASNs 0,1,23456,65001,65535,65536,2^32-1; boundary lengths 0,254,255). "
          "non-trivial = a value was stored/accepted and fully observed; distinct = distinct case line",
     expect_tokens=["(attr 1 ", "(attr 2 ", "(attr 4 ", "(attr 5 ", "(attr 6 ", "(attr 7 ", "(attr 8 ", "(attr 9 ", "(attr 10 ",
-                   "(attr 16 ", "(attr 32 ", "(attr 26 ", "(attr 3 ", "(opaque x", "not-stored rejected", "not-stored dropped",
+                   "(attr 16 ", "(attr 32 ", "(attr 26 ", "(attr 3 ", "(attr 14 ", "(opaque x", "not-stored rejected", "not-stored dropped",
                    "(from err)", "(decode err)", "(v4 ", "(v6 ", "(lv4 ", "(lv6 ", "(vpn4 ", "(vpn6 ", "(rd2 ", "(rd-ip ", "(rd4 ",
                    "two-as", "ip4-as", "four-as", "(mup ", "(rate ", "(action ", "redir2", "(remark ", "redir-ip", "redir4",
                    "ec-unknown", "(ip6 ", "(x ok)", "(x fail", "(ok (some ", "(ok none)"],
@@ -282,6 +282,14 @@ def gen_wire_value(r, code, valid):
         return segs_bytes(segs) if valid else segs_bytes(segs) + [2, 0]
     if code == 18:
         return be(r.pick(ASNS), 4) + be(r.pick(IP4S), 4) if valid else rand_bytes(r, r.pick([0, 6, 7]))
+    if code == 26:                                  # AIGP: TLVs (type, 2-byte length incl. the 3 header bytes)
+        b = []
+        for _ in range(r.pick([0, 1, 1, 2])):
+            n = r.pick([0, 1, 8, 8])
+            b += [r.pick([1, 1, 2])] + be(3 + n, 2) + rand_bytes(r, n)
+        if valid:
+            return b
+        return r.pick([b + [1], b + [1, 0], b + [1, 0, r.pick([0, 2])], b + [1, 0, 11, 0], [0], (b + [1, 0, 3])[:-1] + [9]])
     return rand_bytes(r, r.pick([0, 1, 2, 4, 9, 300]) if r.chance(1, 8) else r.pick([0, 1, 2, 4, 9]))
 
 
